@@ -30,6 +30,26 @@ def minList : List Rat → Rat
   | [] => 1
   | x :: xs => xs.foldl min x
 
+/-- displacement with the safety margins of its discrete decisions: (vector, rounding margin, relative gap to the
+second best image, number of tied best images) -/
+def micInfo (kind : String) (rf : Rat → Int) (B : Cell) (r : V3) : V3 × Rat × Rat × Nat :=
+  if kind == "none" then (r, 1, 1, 1)
+  else if kind == "ortho" then
+    (distOrtho rf B r, minList [tieMargin (r.x / B.a.x), tieMargin (r.y / B.b.y), tieMargin (r.z / B.c.z)], 1, 1)
+  else
+    let R := reduce rf B
+    let c1 := B.c.sub (V3.smul (rf (B.c.y / B.b.y)) B.b)
+    let mred := minList [tieMargin (B.c.y / B.b.y), tieMargin (c1.x / B.a.x), tieMargin (B.b.x / B.a.x)]
+    let r1 := r.sub (V3.smul (rf (r.z / R.c.z)) R.c)
+    let r2 := r1.sub (V3.smul (rf (r1.y / R.b.y)) R.b)
+    let mw := minList [tieMargin (r.z / R.c.z), tieMargin (r1.y / R.b.y), tieMargin (r2.x / R.a.x)]
+    let w := wrapTri rf R r
+    let ns := (images27 R w).map (·.2.norm2)
+    let best := minList ns
+    let others := ns.filter (· ≠ best)
+    let gap := if others.isEmpty then 1 else (minList others - best)
+    (distTri rf B r, min mred mw, gap, (ns.filter (· == best)).length)
+
 def handleMic : List String → String
   | "mic" :: kind :: rnd :: nums =>
     match parseRnd rnd, nums.mapM parseRat with
